@@ -55,6 +55,7 @@ type explorer struct {
 	kind   string // parser | tokenizer | validator
 	workers int
 	firstPop, lastCand int
+	noEvents bool // do not compare events (front-ends whose event timing legitimately differs from the reference)
 	noRef bool // explore the machine alone (no reference): reachability of panics, missing arms, no-progress, stale reads
 }
 
@@ -269,8 +270,8 @@ func (ex *explorer) advanceY(start RCfg, evs []string, items []ConsItem) ([]yset
 }
 
 // Explore runs the product to a fixpoint and returns the disagreements.
-func Explore(m *Machine, starts []*State, multi bool, stats *ExploreStats, workers int, noRef bool) (map[string]Disagreement, []string) {
-	ex := &explorer{noRef: noRef, workers: workers, m: m, multi: multi, dis: map[string]Disagreement{}, undec: map[string]bool{}, stats: stats}
+func Explore(m *Machine, starts []*State, multi bool, stats *ExploreStats, workers int, noRef bool, noEvents ...bool) (map[string]Disagreement, []string) {
+	ex := &explorer{noRef: noRef, noEvents: len(noEvents) > 0 && noEvents[0], workers: workers, m: m, multi: multi, dis: map[string]Disagreement{}, undec: map[string]bool{}, stats: stats}
 	switch {
 	case m.in.handler != nil:
 		ex.kind = "tokenizer"
@@ -460,7 +461,7 @@ func (ex *explorer) process(in *Interp, p *pstate) (res procResult) {
 			if !yAcc {
 				report(Disagreement{Kind: "eof-accept", Mode: mode, Byte: "EOF", Detail: "input is incomplete (reference state " + p.y.String() + ") but the front-end returns no error",
 					Witness: p.witness(), XState: m.StateString(p.x), YState: p.y.String()})
-			} else if xe, ye := ex.xEvents(o.Events), ex.yEvents(yEv); !sameStrs(xe, ye) {
+			} else if xe, ye := ex.xEvents(o.Events), ex.yEvents(yEv); !ex.noEvents && !sameStrs(xe, ye) {
 				report(Disagreement{Kind: "event-desync", Mode: mode, Byte: "EOF", Detail: fmt.Sprintf("events at end of input: front-end %v, reference %v", xe, ye),
 					Witness: p.witness(), XState: m.StateString(p.x), YState: p.y.String()})
 			}
@@ -563,6 +564,12 @@ func (ex *explorer) process(in *Interp, p *pstate) (res procResult) {
 				ycfg = ys.AfterPop(uint8(tag), ex.multi)
 			default:
 				if len(o.Pops) != 0 || len(o.Pushes) != 0 {
+					if _, prob, w := ex.advanceY(ys.Next, ys.Events, o.Items); prob == "accepts-dead" {
+						// the stack operation belongs to look-ahead bytes no RFC 8259 text contains
+						report(Disagreement{Kind: prob, Mode: mode, Byte: byteDesc(b), Detail: "the front-end consumes look-ahead bytes without dispatching them; after them no RFC 8259 text is possible",
+							Witness: p.witness() + inb + w, XState: m.StateString(p.x), YState: p.y.String()})
+						continue
+					}
 					report(Disagreement{Kind: "stack-desync", Mode: mode, Byte: byteDesc(b), Detail: fmt.Sprintf("reference keeps the container stack; front-end pushes=%d pops=%d", len(o.Pushes), len(o.Pops)),
 						Witness: p.witness() + inb, XState: m.StateString(p.x), YState: p.y.String()})
 					continue
@@ -586,7 +593,7 @@ func (ex *explorer) process(in *Interp, p *pstate) (res procResult) {
 			xe := ex.xEvents(o.Events)
 			for _, y := range ysets {
 				ye := ex.yEvents(y.events)
-				if !sameStrs(xe, ye) {
+				if !ex.noEvents && !sameStrs(xe, ye) {
 					report(Disagreement{Kind: "event-desync", Mode: mode, Byte: byteDesc(b), Detail: fmt.Sprintf("front-end emits %v, reference %v", xe, ye),
 						Witness: p.witness() + inb + y.input, XState: m.StateString(p.x), YState: p.y.String()})
 					continue
